@@ -307,6 +307,146 @@ pub(crate) mod vk {
         unsafe { PL_CUR_IN = 0; PL_BLOCKS = [0; 4]; PL_N = 0; PL_EMIT = emit; }
     }
 
+    // ------------------------------------------------------------------ chan_any: mpsc result channel by contract
+    // std::sync::mpsc blocking paths (thread-local context + futex) cannot be compiled by Kani, and a sequential harness
+    // has no worker threads anyway. The channel is replaced by its contract: a bag of messages that were sent and not
+    // yet received. `try_recv` may return Empty although messages are in the bag (the worker "has not finished yet") or
+    // hand out ANY message of the bag: all completion orders of the workers are covered at once. Blocking `recv` hands
+    // out any message of the bag; with an empty bag the real call would park until a worker sends: recorded in the ghost
+    // counter CHAN_WOULD_BLOCK and reported as disconnected (harnesses assert it never happens while results are owed).
+    #[cfg(feature = "std")]
+    pub(crate) const CHAN_CAP: usize = 4;
+    #[cfg(feature = "std")]
+    pub(crate) static mut CHAN_STORE: *mut u8 = core::ptr::null_mut();
+    #[cfg(feature = "std")]
+    pub(crate) static mut CHAN_WOULD_BLOCK: u32 = 0;
+    #[cfg(feature = "std")]
+    pub(crate) static mut CHAN_SENT: u32 = 0;
+    #[cfg(feature = "std")]
+    pub(crate) static mut CHAN_DISCONNECTED: bool = false;   // all senders gone (set by harnesses that model dead workers)
+    #[cfg(feature = "std")]
+    pub(crate) fn chan_init<T>() {
+        let b: Box<[Option<T>; CHAN_CAP]> = Box::new([None, None, None, None]);
+        unsafe { CHAN_STORE = Box::into_raw(b) as *mut u8; CHAN_WOULD_BLOCK = 0; CHAN_SENT = 0; CHAN_DISCONNECTED = false; }
+    }
+    #[cfg(feature = "std")]
+    fn chan_slots<'a, T>() -> &'a mut [Option<T>; CHAN_CAP] {
+        unsafe { assert!(!CHAN_STORE.is_null()); &mut *(CHAN_STORE as *mut [Option<T>; CHAN_CAP]) }
+    }
+    #[cfg(feature = "std")]
+    pub(crate) fn chan_len<T>() -> usize {
+        let s = chan_slots::<T>();
+        let mut n = 0;
+        let mut i = 0;
+        while i < CHAN_CAP { if s[i].is_some() { n += 1; } i += 1; }
+        n
+    }
+    #[cfg(feature = "std")]
+    pub(crate) fn chan_put<T>(t: T) {
+        let s = chan_slots::<T>();
+        let mut i = 0;
+        while i < CHAN_CAP {
+            if s[i].is_none() { s[i] = Some(t); unsafe { CHAN_SENT += 1; } return; }
+            i += 1;
+        }
+        assert!(false, "verif ghost channel capacity exceeded");
+    }
+    #[cfg(feature = "std")]
+    fn chan_take_any<T>() -> Option<T> {
+        if chan_len::<T>() == 0 { return None; }
+        let i: usize = any();
+        assume(i < CHAN_CAP);
+        let s = chan_slots::<T>();
+        assume(s[i].is_some());
+        s[i].take()
+    }
+    #[cfg(feature = "std")]
+    pub(crate) fn chan_send_stub<T>(_tx: &std::sync::mpsc::Sender<T>, t: T) -> core::result::Result<(), std::sync::mpsc::SendError<T>> {
+        chan_put(t);
+        Ok(())
+    }
+    #[cfg(feature = "std")]
+    pub(crate) fn chan_try_recv_stub<T>(_rx: &std::sync::mpsc::Receiver<T>) -> core::result::Result<T, std::sync::mpsc::TryRecvError> {
+        if chan_len::<T>() > 0 && any::<bool>() {
+            return Ok(chan_take_any::<T>().unwrap());
+        }
+        if chan_len::<T>() == 0 && unsafe { CHAN_DISCONNECTED } { return Err(std::sync::mpsc::TryRecvError::Disconnected); }
+        Err(std::sync::mpsc::TryRecvError::Empty)
+    }
+    #[cfg(feature = "std")]
+    pub(crate) fn chan_recv_stub<T>(_rx: &std::sync::mpsc::Receiver<T>) -> core::result::Result<T, std::sync::mpsc::RecvError> {
+        match chan_take_any::<T>() {
+            Some(t) => Ok(t),
+            None => { if !unsafe { CHAN_DISCONNECTED } { unsafe { CHAN_WOULD_BLOCK += 1; } } Err(std::sync::mpsc::RecvError) }
+        }
+    }
+
+    // ------------------------------------------------------------------ map_any: BTreeMap reorder buffer by contract
+    // BTreeMap::{insert,remove,is_empty} of std are too heavy for CBMC (node splitting code, > 200 s for one insert);
+    // the coordinators use the map only as a finite partial function seq -> result. It is replaced by that contract on
+    // a 4-slot ghost store (insert of a present key replaces, remove returns and deletes, capacity overflow is a harness
+    // error). std's BTreeMap itself is not under test (listed as assumed).
+    #[cfg(feature = "std")]
+    pub(crate) static mut MAP_STORE: *mut u8 = core::ptr::null_mut();
+    #[cfg(feature = "std")]
+    pub(crate) fn map_init<K, V>() {
+        let b: Box<[Option<(K, V)>; CHAN_CAP]> = Box::new([None, None, None, None]);
+        unsafe { MAP_STORE = Box::into_raw(b) as *mut u8; }
+    }
+    #[cfg(feature = "std")]
+    fn map_slots<'a, K, V>() -> &'a mut [Option<(K, V)>; CHAN_CAP] {
+        unsafe { assert!(!MAP_STORE.is_null()); &mut *(MAP_STORE as *mut [Option<(K, V)>; CHAN_CAP]) }
+    }
+    #[cfg(feature = "std")]
+    pub(crate) fn map_len<K, V>() -> usize {
+        let s = map_slots::<K, V>();
+        let mut n = 0;
+        let mut i = 0;
+        while i < CHAN_CAP { if s[i].is_some() { n += 1; } i += 1; }
+        n
+    }
+    #[cfg(all(feature = "std", kani))]
+    pub(crate) fn map_insert_stub<K: Ord, V, A: core::alloc::Allocator + Clone>(_m: &mut std::collections::BTreeMap<K, V, A>, k: K, v: V) -> Option<V> {
+        let s = map_slots::<K, V>();
+        let mut i = 0;
+        while i < CHAN_CAP {
+            let hit = match &s[i] { Some((k2, _)) => *k2 == k, None => false };
+            if hit { return s[i].replace((k, v)).map(|e| e.1); }
+            i += 1;
+        }
+        i = 0;
+        while i < CHAN_CAP {
+            if s[i].is_none() { s[i] = Some((k, v)); return None; }
+            i += 1;
+        }
+        assert!(false, "verif ghost map capacity exceeded");
+        None
+    }
+    #[cfg(all(feature = "std", kani))]
+    pub(crate) fn map_remove_entry_stub<K, V, A: core::alloc::Allocator + Clone, Q: ?Sized>(_m: &mut std::collections::BTreeMap<K, V, A>, k: &Q) -> Option<(K, V)>
+    where K: core::borrow::Borrow<Q> + Ord, Q: Ord {
+        let s = map_slots::<K, V>();
+        let mut i = 0;
+        while i < CHAN_CAP {
+            let hit = match &s[i] { Some((k2, _)) => k2.borrow() == k, None => false };
+            if hit { return s[i].take(); }
+            i += 1;
+        }
+        None
+    }
+    #[cfg(all(feature = "std", kani))]
+    pub(crate) fn map_is_empty_stub<K, V, A: core::alloc::Allocator + Clone>(_m: &std::collections::BTreeMap<K, V, A>) -> bool {
+        map_len::<K, V>() == 0
+    }
+
+    // ------------------------------------------------------------------ Arc payload destructors are not run (leak)
+    // Arc::drop_slow (destroys the payload when the last reference goes away) reaches std::thread's Packet destructor
+    // and other code built on the catch_unwind intrinsic, which Kani 0.68 cannot compile (ICE). In harnesses that drop MT
+    // objects it is replaced by "leak the payload": reference counting itself still runs; no property here depends on
+    // a payload destructor.
+    #[cfg(all(feature = "std", kani))]
+    pub(crate) fn arc_leak_stub<T: ?Sized, A: core::alloc::Allocator>(_a: &mut std::sync::Arc<T, A>) {}
+
     // ------------------------------------------------------------------ fixed-size sink / source
     /// Fixed-capacity sink: `Vec<u8>` growth is expensive for CBMC. Overflow of the capacity is a
     /// harness error (assert), never silently dropped.
